@@ -7,6 +7,6 @@ trap 'git -C /repo worktree remove --force '$W EXIT
 git -C $W apply "$P" || { echo "patch does not apply"; exit 2; }
 (cd $W && GOFLAGS=-mod=mod GOPROXY=off go build ./... ) || { echo "does not build"; exit 2; }
 for prop in "$@"; do
-  out=$(cd /verif && VERIF_REPO=$W VERIF_BUDGET_S=$BUD ./check $prop quick 2>&1); rc=$?
+  out=$(cd /verif && VERIF_REPO=$W VERIF_EVIDENCE_DIR=/dev/shm/mut-evidence VERIF_REPLAY_DIR=/dev/shm/mut-replays VERIF_BUDGET_S=$BUD ./check $prop quick 2>&1); rc=$?
   echo "== $prop exit=$rc"; echo "$out" | grep -E "VIOLATION|class=|KNOWN|^check: [0-9]" | head -5
 done
